@@ -1,10 +1,12 @@
 """C13 - JMESPath evaluation follows the JMESPath specification.
 Spec: Jmespath (evaluator over JsonValue written from the JMESPath specification, un-parser Show, Renderable);
 TLC enumerates expression trees (bounded-exhaustive wrap layers, function/argument matrices, slice and
-comparator matrices, identifier/literal renderings) against a document universe, checks the specification's
+comparator matrices, identifier/literal renderings, and the fractional-number families frac / fracarr / fracdoc: numeric
+built-ins, comparators, to_number / to_string, literals and arrays over exact decimals) against a document universe, checks the specification's
 algebraic identities as invariants in the same runs, and emits (expression string, predicted result per
 document).  Binding: G - the harness replays every case through jmespath::search and make_expression +
-evaluate (throwing and error_code overloads, json and ojson), compares value / "an error was reported",
+evaluate (throwing and error_code overloads, json and ojson), compares value (numbers by value: a returned double must be
+the double nearest to the predicted exact decimal, an integer and a double of equal value are one number) / "an error was reported",
 compiled vs one-shot agreement, and the document before/after.
 Known findings: predictions are always the specification's; the spec additionally tags each (case, document) with the names
 of the known-deviation classes it falls into (field "dev"), sig() gives tagged mismatches the coarse signature {dev, what}, and
@@ -30,12 +32,7 @@ CFG = {'quick': ['gen/MC_C13wrap_q.cfg', 'gen/MC_C13deep_q.cfg', 'gen/MC_C13fn_q
 # class at all, a mismatch on a (case, document) tagged with it is reported as a SUSPECTED-DEFECT line instead of a
 # VIOLATION; as soon as the file has an entry naming the class (status known: KNOWN-FINDING; status fixed: any mismatch is a
 # VIOLATION again) this table has no effect.  Only the kinds of observation the root cause can produce are covered.
-PENDING_FINDINGS = {
-    'to_number-non-json-number': dict(
-        what='value|error-expected|unexpected-error',
-        text="jmespath to_number(): a string that is not a json-number is converted to a number instead of null (lenient to_integer / "
-             "std::from_chars prefix parse): to_number('1.5.2') gives 1.5, to_number('0x10') 16, to_number('01') 1, to_number('.5') 0.5, "
-             "to_number('1 ') 1, to_number('nan') NaN (spec: null)")}
+PENDING_FINDINGS = {}       # (the to_number class it once held is now an entry of known_findings.jsonl)
 DOCS_CFG = 'gen/MC_C13docs.cfg'
 RT_CFG = {'quick': 'gen/MC_C13rt_q.cfg', 'thorough': 'gen/MC_C13rt_t.cfg'}   # wrap cases emitted with their trees
 
